@@ -23,7 +23,7 @@ ALPHA = [0x61, 0x62, 0x41, 0x42, 0x2e, 0x20, 0x0a, 0x09, 0x01, 0x7f, 0x80, 0xff,
 TWO = ["a", "b", "A", "B"]
 GROUP1 = ["strlen", "strcmp", "strncmp", "strstr", "memcmp", "contains", "containsnc", "starts", "ends", "count", "eq", "eqnc", "find",
           "findfrom", "substr", "substr1", "lower", "replc", "ordinal"]
-GROUP2 = []
+GROUP2 = ["repls", "printable", "append", "plus", "copybuf", "fmt"]
 PAIR_OPS = ["strcmp", "strstr", "contains", "containsnc", "starts", "ends", "count", "eq", "eqnc"]
 
 
@@ -112,6 +112,41 @@ def gen_ops(ops, tier, rng):
                 out.append(":substr1 %s %x" % (tb(a), rng.choice(positions(len(a)))))
             if "replc" in ops:
                 out.append(":replc %s %x %x" % (tb(a), ch, rng.choice(ALPHA + [0])))
+        if "repls" in ops:
+            w = rng.choice([b"", b"x", b"ab", p, p + p, a[:2], rstr(rng, 0, 5)])
+            out.append(":repls %s %s %s" % (tb(a), tb(p), tb(w)))
+        if "printable" in ops and rng.random() < 0.6:
+            out.append(":printable " + tb(a if not big else rstr(rng, 100, 400, ALPHA)))
+        for op in ("append", "plus"):
+            if op in ops and rng.random() < 0.4:
+                out.append(":%s %s %s" % (op, tb(a), tb(p)))
+        if "copybuf" in ops and not big:
+            out.append(":copybuf %s %x" % (tb(a), rng.choice([0, 1, 2, max(len(a) - 1, 0), len(a), len(a) + 1, len(a) + 2, len(a) + 5])))
+    if "repls" in ops:
+        for a in ab:
+            for p in pats:
+                for w in (b"", b"b", b"a", b"aa", b"xyz", p + b"a"):
+                    out.append(":repls %s %s %s" % (tb(a), tb(p), tb(w)))
+        for a, p, w in ((b"aaaa", b"aa", b"b"), (b"aaa", b"aa", b"b"), (b"abc", b"", b"x"), (b"abababa", b"aba", b"X"), (b"abababa", b"aba", b""),
+                        (b"aaaaaaaaaa", b"aaa", b"aaaaaa"), (b"\x80\xff\x80", b"\x80", b"\xff\xff"), (b"a" * 300, b"aa", b"b"), (b"ab" * 200, b"ab", b"")):
+            out.append(":repls %s %s %s" % (tb(a), tb(p), tb(w)))
+    if "printable" in ops:
+        out.append(":printable " + tb(bytes(range(1, 256))))
+        out += [":printable " + tb(bytes([c])) for c in range(1, 256)]
+        out += [":printable " + tb(s) for s in small_strings(bytes([0x61, 0x0a, 0x01, 0x80]), 3)]
+    if "fmt" in ops:
+        # formatted construction: total length 0..300, every length around the 100-byte fast-path boundary and the cache class sizes
+        lens = list(range(0, 12)) + list(range(90, 112)) + list(range(124, 132)) + list(range(252, 260)) + [31, 32, 33, 63, 64, 65, 95, 96, 97, 200, 300]
+        lens += [rng.randint(0, 300) for _ in range(40 if tier == "quick" else 2000)]
+        for n in lens:
+            k = rng.randint(0, n)
+            t = bytes(rng.choice([0x61, 0x62, 0x25, 0x80, 0x0a]) for _ in range(n))
+            out.append(":fmt %s %s" % (tb(t[:k]), tb(t[k:])))
+            out.append(":fmt %s %s" % (tb(t), tb(b"")))
+    if "copybuf" in ops:
+        for a in (b"", b"a", b"ab", b"hello"):
+            for dn in range(0, len(a) + 4):
+                out.append(":copybuf %s %x" % (tb(a), dn))
     # exhaustive positions on short strings
     for a in [b"", b"a", b"ab", b"aba", b"hello\nworld"]:
         for b in positions(len(a)):
